@@ -193,3 +193,14 @@ Theorem C05_blocking_returns_composed_partial : forall pers blk fx caps fa cls,
   ComposeLive.CProg c.
 Proof. exact ComposeLive.blocking_progress_composed. Qed.
 Print Assumptions C05_blocking_returns_composed_partial.
+
+(** ** Round "proofs 3" *)
+From WM Require GoChannel.ComposeTrace.
+(** the one-in-flight acceptor accepts the history of every subscription of every composed run
+    (repaired loop) *)
+Theorem C05_one_in_flight_acceptor_sound_composed : forall pers blk fx caps cls x,
+  Monitor.mon_one_in_flight
+    (MonitorSound.trace x (sinit (caps x) true)
+       (Compose.sub_labels x (Compose.cinit pers blk fx caps true) cls)) = [].
+Proof. exact ComposeTrace.one_in_flight_acceptor_sound_composed. Qed.
+Print Assumptions C05_one_in_flight_acceptor_sound_composed.
